@@ -51,9 +51,9 @@ Lemma buffer_step_total : forall b msg, buf_len255 b -> ranges_ok msg ->
 Proof.
   intros b msg Hb [[Hc1 Hc2] [Hn1 Hn2]]. pose proof max_frag_cnt_small as Hm.
   unfold buffer_step. set (slot := slot_of msg).
-  set (fresh := py_repeat (@None ais_sentence) (Z.max (a_frag_cnt msg) 255)).
+  set (fresh := pyl_repeat (@None ais_sentence) (Z.max (a_frag_cnt msg) 255)).
   assert (Hfresh : length fresh = 255%nat).
-  { unfold fresh, py_repeat. rewrite repeat_length. replace (Z.max (a_frag_cnt msg) 255) with 255 by lia. reflexivity. }
+  { unfold fresh, pyl_repeat. rewrite repeat_length. replace (Z.max (a_frag_cnt msg) 255) with 255 by lia. reflexivity. }
   set (buffer1 := if negb (buf_mem b slot) then buf_set b slot fresh else b).
   assert (Hb1 : buf_len255 buffer1).
   { unfold buffer1. destruct (negb (buf_mem b slot)); [apply buf_len255_set; assumption|exact Hb]. }
@@ -63,13 +63,13 @@ Proof.
     - exists fresh. apply buf_get_set_same. }
   destruct Hg as [arr Hg]. rewrite Hg.
   pose proof (buf_len255_get _ _ _ Hb1 Hg) as Hlen.
-  rewrite py_setitem_in_range by (unfold py_len; rewrite Hlen; lia).
-  set (arr' := list_set arr (Z.to_nat (a_frag_num msg - 1)) (Some msg)).
+  rewrite py_setitem_in_range by (unfold pyl_len; rewrite Hlen; lia).
+  set (arr' := pyl_list_set arr (Z.to_nat (a_frag_num msg - 1)) (Some msg)).
   assert (Hlen' : length arr' = 255%nat) by (unfold arr'; rewrite list_set_length; exact Hlen).
-  destruct (py_len (not_none (py_slice arr' 0 (a_frag_cnt msg))) =? a_frag_cnt msg) eqn:E.
+  destruct (pyl_len (not_none (pyl_slice arr' 0 (a_frag_cnt msg))) =? a_frag_cnt msg) eqn:E.
   - apply Z.eqb_eq in E.
-    destruct (not_none (py_slice arr' 0 (a_frag_cnt msg))) as [|p ps] eqn:Ep.
-    + unfold py_len in E. cbn [length] in E. lia.
+    destruct (not_none (pyl_slice arr' 0 (a_frag_cnt msg))) as [|p ps] eqn:Ep.
+    + unfold pyl_len in E. cbn [length] in E. lia.
     + unfold assemble_from_iterable. eexists _, _. split; [reflexivity|].
       apply buf_len255_del. apply buf_len255_set; assumption.
   - eexists _, _. split; [reflexivity|]. apply buf_len255_set; assumption.
